@@ -54,6 +54,11 @@ type B implements Node {
 
 union U = A | B | Item
 
+type Solo {
+  only: String! @goField(forceResolver: true)
+  plain: String
+}
+
 type Item {
   name: String! @goField(forceResolver: true)
   owner: Node @goField(forceResolver: true)
@@ -74,6 +79,7 @@ type Query {
   scalar: String
   strict: String!
   guardedRoot: A @guard(tag: "r")
+  solo: Solo
 }
 
 type Mutation {
